@@ -181,7 +181,7 @@ def build(name, seed=0):
 UNEQUAL_OK = {"padder", "padder20", "truncate", "truncate2_6", "interp7"}     # transformers documented for panels of unequal-length series
 
 
-def make_panel(rng, ni, nc, nt, cells="S", positive=False, plateaus=False, classes=2, lengths=None, integer=False):
+def make_panel(rng, ni, nc, nt, cells="S", positive=False, plateaus=False, classes=2, lengths=None, integer=False, cell_index="default"):
     """class-separable panel: class k adds a sinusoid of frequency k+1; returns (nested DataFrame, class index array, 3-d array);
     lengths: per-instance series lengths (<= nt) for an unequal-length panel (the 3-d array is None then)"""
     cls = rng.integers(0, classes, size=ni)
@@ -198,9 +198,15 @@ def make_panel(rng, ni, nc, nt, cells="S", positive=False, plateaus=False, class
             s = int(rng.integers(0, nt - 4))
             arr[i, :, s:s + int(rng.integers(2, 4))] = 0.0
     arr = np.round(arr, 6)
-    if integer:
+    if integer == "int16":
+        arr = np.round(arr * 1000).astype(np.int16)     # narrow integer type, values in the thousands (products with the time index leave its range)
+    elif integer:
         arr = np.round(arr * 10).astype(np.int64)       # integer-typed panel (counts)
     cont = (lambda v: pd.Series(v)) if cells == "S" else (lambda v: np.array(v))
+    if cells == "S" and cell_index != "default":
+        # Series cells that carry their own time index (1-based / starting elsewhere): positions, not labels, are the time points
+        start = 1 if cell_index == "one-based" else 100
+        cont = lambda v: pd.Series(v, index=pd.RangeIndex(start, start + len(v)))  # noqa
     if lengths is not None:
         df = pd.DataFrame({"dim_%d" % j: [cont(arr[i, j, :int(lengths[i])].copy()) for i in range(ni)] for j in range(nc)})
         return df, cls, None
